@@ -50,6 +50,10 @@ def emit_readable(ctx, repo):
         from . import rules_emitgrammar as REG
         ctx.call(REG.r_emitter_grammar, repo, max_len=6, slack=1)
     ctx.call(R6B.r_bang_escaped, repo)
+    ctx.call(R6B.r_emitter_lookahead_table, repo)
+    ctx.call(R6B.r_doc_indicator_scalars, repo)
+    ctx.call(R6B.r_fold_single_space, repo)
+    ctx.call(R6B.r_split_outside_simple_key, repo)
     ctx.call(R6B.r_first_document_state_once, repo)
     ctx.call(EFF.r_global_readonly, repo)
     ctx.call(R6B.r_instance_writes_class, repo, ['emitter', 'serializer', 'representer'])
@@ -96,6 +100,7 @@ def reader_positions(ctx, repo):
     ctx.call(RX.r_column_per_char, repo)
     ctx.call(RX.r_mark_from_position, repo)
     ctx.call(R6B.r_str_input_verbatim, repo)
+    ctx.call(R6B.r_window_compacted, repo)
     ctx.call(R6B.r_printable_per_character, repo)
     ctx.call(R6B.r_printable_one_test, repo)
     ctx.call(R6B.r_read_only_in_update_raw, repo)
@@ -135,6 +140,7 @@ def mapping_rules(ctx, repo):
     ctx.call(R6.r_no_mutate_while_iterating, repo, ['constructor'])
     ctx.call(R6B.r_mapping_store_only, repo)
     ctx.call(R6B.r_merge_by_tag, repo)
+    ctx.call(R6B.r_merge_value_rejected, repo)
     ctx.call(RR2.r_insertion_order_load, repo)
     ctx.call(R6B.r_constructed_key_hashing, repo)
     ctx.call(R6B.r_pairs_from_nodes, repo)
